@@ -42,13 +42,23 @@ pub fn exec(c: &[i64]) -> Vec<i64> {
         let rt = tokio::runtime::Builder::new_current_thread().enable_all().build().unwrap();
         rt.block_on(async move {
             let (command_tx, mut command_rx) = broadcast::channel::<Object>(4096);
-            let (signal_tx, signal_rx) = broadcast::channel::<Object>(64);
+            // 501 g ...: as the runtime schedules it - capacity 16, wait_io_sub re-entered with a fresh subscription whenever it returns
+            let looped = cv.first() == Some(&501);
+            let (signal_tx, signal_rx) = broadcast::channel::<Object>(if looped { 16 } else { 64 });
             let mut director = Director::new(NullConfig);
-            let task = tokio::spawn(async move { director.wait_io_sub(command_tx, signal_rx).await; });
+            let task = if looped {
+                tokio::spawn(async move { loop { director.wait_io_sub(command_tx.clone(), signal_rx.resubscribe()).await; tokio::task::yield_now().await; } })
+            } else {
+                tokio::spawn(async move { director.wait_io_sub(command_tx, signal_rx).await; })
+            };
+            for _ in 0..4 { tokio::task::yield_now().await; }
             let mut out: Vec<i64> = Vec::new(); let mut n = 0i64; let mut i = 0usize;
             // 500 g ...: the signals are published g at a time; the director only runs after each group
-            let group = if cv.first() == Some(&500) { i = 2; (cv[1].max(1) as usize).min(60) } else { 1 };
+            let group = if cv.first() == Some(&500) || looped { i = 2; (cv[1].max(1) as usize).min(60) } else { 1 };
+            let mut gi = 0usize;
             while i < cv.len() {
+                // 501: the groups alternate in size 3, g, 3, g, ...
+                let group = if looped { gi += 1; if gi % 2 == 1 { 3 } else { group } } else { group };
                 for _ in 0..group {
                     if i >= cv.len() { break; }
                     let Some(sig) = signal_of(&cv, &mut i) else { return vec![-2] };
@@ -60,6 +70,7 @@ pub fn exec(c: &[i64]) -> Vec<i64> {
                 out.push(k); out.extend(cmds); n += 1;
             }
             drop(signal_tx);
+            if looped { task.abort(); }
             let _ = task.await;
             let mut o = vec![n]; o.extend(out); o
         })
@@ -95,6 +106,27 @@ pub fn gen(o: &Opts, sink: &mut dyn FnMut(Vec<i64>, String)) {
                 }
             }
             let _ = j;
+            put!(c);
+        }
+    }
+    // the director scheduled as the runtime schedules it (prefix 501): groups of up to 16 are processed, larger groups make it
+    // lag and re-enter - the verdicts elected before must survive that (an overspeed before the lag is still pending after it)
+    {
+        let mut rng = Rng::new(o.seed, 9_600);
+        let nb = if o.tier_thorough { 10_000 } else { 1_000 };
+        for _ in 0..nb {
+            let g = *rng.pick(&[17i64, 18, 20, 16, 3]);
+            let mut c = vec![501, g];
+            let sig = |rng: &mut Rng, c: &mut Vec<i64>| match rng.below(6) {
+                0 | 1 => c.extend([1, *rng.pick(&[800i64, 1500, 2201, 2500, 3000])]),
+                2 => c.extend([1, rng.below(4000) as i64]),
+                3 => { let a = angle(rng); c.extend([2, 0x7a, a, 0, 1]); }
+                4 => c.extend([2, *rng.pick(&[0x6ai64, 0x6b]), angle(rng), 0, 1]),
+                _ => c.extend([3, rng.below(5) as i64]),
+            };
+            let groups = 2 + rng.below(4);
+            for gi in 0..groups { for _ in 0..(if gi % 2 == 0 { 3 } else { g }) { sig(&mut rng, &mut c); } }
+            for _ in 0..rng.below(4) { sig(&mut rng, &mut c); }
             put!(c);
         }
     }
